@@ -137,10 +137,19 @@ func runC20(tw *traceWriter, r *rand.Rand, ops []string, et int32, cred string) 
 	}
 	defer k.close()
 	lib := map[string]string{"default_tkt_enctypes": etypeNames[et], "default_tgs_enctypes": etypeNames[et], "permitted_enctypes": etypeNames[et], "udp_preference_limit": "1"}
-	cfg, err := config.NewFromString(simConf(realm, map[string][]string{realm: {addr}}, lib, map[string]string{".c20.test": realm}))
+	confText := simConf(realm, map[string][]string{realm: {addr}}, lib, map[string]string{".c20.test": realm})
+	cfg, err := config.NewFromString(confText)
 	if err != nil {
 		return err
 	}
+	var kp *kpasswdSim // the password-change service, started by the first changePassword operation
+	var kpCfg *config.Config
+	curPw := password
+	defer func() {
+		if kp != nil {
+			kp.close()
+		}
+	}()
 	var logbuf bytes.Buffer
 	lg := log.New(&logbuf, "", 0)
 	kt := keytab.New()
@@ -373,6 +382,48 @@ func runC20(tw *traceWriter, r *rand.Rand, ops []string, et int32, cred string) 
 				apq := messages.APReq{PVNO: 5, MsgType: 14, APOptions: types.NewKrbFlags(), Ticket: t2, EncryptedAuthenticator: enc}
 				if b, e := apq.Marshal(); e == nil {
 					outs = append(outs, output{"wire:ap-req-with-decrypted-ticket", b})
+				}
+			case "changePassword":
+				// every kind of answer, the service's own and the attacker's; the client under test is a fresh one that knows the
+				// current password (cl's credentials are not touched)
+				if kp == nil {
+					if _, e := k.addPrincipal(realm, "kadmin/changepw", "kadmin-"+hx(rbytes(r, 8)), []int32{et}); e != nil {
+						panic(e)
+					}
+					kp = &kpasswdSim{kdc: k, realm: realm, etypes: map[string]int32{"alice": et}}
+					ka, e := kp.listen()
+					if e != nil {
+						panic(e)
+					}
+					kpCfg, e = config.NewFromString(replaceFirst(confText, "  }\n", "    kpasswd_server = "+ka+"\n  }\n"))
+					if e != nil {
+						panic(e)
+					}
+				}
+				for _, mode := range kpModes {
+					newPw := "New-" + base64.RawURLEncoding.EncodeToString(rbytes(r, 18))
+					markers = append(markers, secretMarker{"password", []byte(newPw)})
+					var lb bytes.Buffer
+					c2 := client.NewWithPassword("alice", realm, curPw, kpCfg, client.DisablePAFXFAST(true), client.Logger(log.New(&lb, "", 0)))
+					kp.mu.Lock()
+					kp.mode = mode
+					n0 := len(kp.served)
+					kp.mu.Unlock()
+					_, e := c2.ChangePasswd(newPw)
+					emitErr("changePasswd-"+mode, e)
+					var sb bytes.Buffer
+					c2.Print(&sb)
+					outs = append(outs, output{"print:client-after-changePasswd-" + mode, append([]byte{}, sb.Bytes()...)})
+					outs = append(outs, output{"logline:client-changePasswd-" + mode, append([]byte{}, lb.Bytes()...)})
+					if j, je := c2.Credentials.JSON(); je == nil {
+						outs = append(outs, output{"json:credentials-after-changePasswd-" + mode, []byte(j)})
+					}
+					c2.Destroy()
+					kp.mu.Lock()
+					if len(kp.served) > n0 && kp.served[len(kp.served)-1].Action == "applied" {
+						curPw = newPw
+					}
+					kp.mu.Unlock()
 				}
 			case "destroy":
 				cl.Destroy()
